@@ -33,9 +33,34 @@ def post_ok(op, M):
         return len(pos) == len(set(pos)), "duplicate position left"
     return True, ""
 
+def dup_mat(rng, fmt):
+    """a matrix that certainly has duplicate positions, a cancelling pair, an explicit zero and a diagonal entry"""
+    nr, nc = rng.choice([(3, 3), (4, 4), (3, 5), (5, 3), (2, 2)])
+    trip = gen.rand_triples(rng, nr, nc, rng.randint(4, 10), dup_frac=0.45, cancel_frac=0.15, zero_frac=0.1)
+    d = rng.randrange(min(nr, nc)); trip += [(d, d, gen.rand_val(rng)), (d, d, gen.rand_val(rng))]
+    rng.shuffle(trip)
+    return fw.mat_from_triples(fmt, nr, nc, trip)
+
+def directed_cases(ctx):
+    """every ordered pair of operations on every source format, on duplicate-laden matrices (the boundaries of the
+    proofs' case splits: merged duplicates followed by a reinterpretation of the arrays, etc.)"""
+    rng = ctx.rng; cases = []; k = 0
+    for fmt in ("coo", "csr", "csc"):
+        for op1 in OPS_ANY + ["move_diag"]:
+            if op1 == "move_diag" and fmt == "coo": continue
+            f1 = fmt_after(fmt, op1)
+            for op2 in OPS_ANY + ["move_diag"]:
+                if op2 == "move_diag" and f1 == "coo": continue
+                A = dup_mat(rng, fmt); ops = [op1, op2]
+                if rng.random() < 0.3:
+                    f2 = fmt_after(f1, op2); op3 = rng.choice(OPS_ANY + (["move_diag"] if f2 != "coo" else [])); ops.append(op3)
+                cid = "d%d" % k; k += 1
+                cases.append(dict(cid=cid, kind="chain", A=A, ops=ops, line=" ".join([cid, "chain"] + A.tokens() + [str(len(ops))] + ops)))
+    return cases
+
 def gen_cases(ctx, n):
     rng = ctx.rng
-    cases = []
+    cases = directed_cases(ctx)
     for k in range(n):
         r = rng.random()
         if r < 0.75:
